@@ -116,6 +116,26 @@ Proof.
     rewrite nth_error_repeat'. destruct (Nat.ltb_spec (v_cell v c r - off (vw v)) (len (vw v))); [reflexivity|lia].
 Qed.
 
+(** * a cell lies in exactly its own row window *)
+Lemma in_row_cell v a c r : wf_view v -> c < vcols v -> a < vrows v -> r < vrows v ->
+  in_win (row_win v a) (v_cell v c r) = (a =? r).
+Proof.
+  intros Hwf Hc Ha Hr. destruct (Nat.eqb_spec a r) as [->|Hne]; [apply in_win_row_cell; exact Hc|].
+  destruct (in_win (row_win v a) (v_cell v c r)) eqn:Ein; [|reflexivity].
+  exfalso. unfold in_win in Ein. apply Bool.andb_true_iff in Ein. destruct Ein as [X1 X2].
+  apply Nat.leb_le in X1. apply Nat.ltb_lt in X2. cbn [row_win off len] in X1, X2.
+  destruct (v_cell_inj v c r (v_cell v c r - (off (vw v) + a * vstride v)) a Hwf Hc) as [_ Heq];
+    [lia|unfold v_cell in *; lia|congruence].
+Qed.
+
+Lemma row_win_fits v b r : wf_view v -> fits v b -> r < vrows v ->
+  off (row_win v r) + vcols v <= length b.
+Proof.
+  intros Hwf Hb Hr. destruct (row_win_inside v r Hwf Hr) as [_ H]. unfold fits in Hb.
+  cbn [row_win off len] in *. lia.
+Qed.
+
+
 (** * swap_cols *)
 Definition swap_idx_of (a b c : nat) : nat := if c =? b then a else if c =? a then b else c.
 
